@@ -30,6 +30,10 @@ def box(name, nv):
         return [-5e5] * nv, [5e5] * nv
     if name == 'degenerate':
         return [2.0] * nv, [2.0] * nv
+    if name == 'huge':                       # width 1.6e308: still a finite float
+        return [-8e307] * nv, [8e307] * nv
+    if name == 'hugeint':                    # +-2**62 (given as integers: int_bounds): width 2**63 does not fit int64
+        return [-float(2 ** 62)] * nv, [float(2 ** 62)] * nv
     raise KeyError(name)
 
 
@@ -267,6 +271,17 @@ def hunts(quick, focus, timeout):
             if any(p['optimizer'] == 'WCA' for p in cfg['prelude']) and cfg['n_agents'] < 2:
                 cfg['n_agents'] = 2
             cfg['n_agents'] = max([cfg['n_agents']] + [WR[p['optimizer']]['min_agents'] for p in cfg['prelude']])
+            cfg['repro'] = False
+            out.append(cfg)
+    # huge (but valid) boxes: only the hill climber, whose update adds small Gaussian noise and cannot overflow by itself -- the initial
+    # sampling, the clipping and the first sweep are what is exercised
+    if 'HC' in opts:
+        for i in range(4 if quick else 16):
+            c = {'objective': ['linear', 'constant'][i % 2], 'ret': 'pyfloat', 'box': ['huge', 'hugeint'][i % 2], 'agents': [4, 2][(i // 2) % 2],
+                 'n_variables': [2, 1][(i // 2) % 2], 'n_dimensions': 1, 'n_iterations': 1, 'draws': 'seeded', 'hp': 'default',
+                 'store_best_only': False, 'hook': 'observe'}
+            cfg = make('HC', 'search', c, 9800 + i, timeout)
+            cfg['int_bounds'] = c['box'] == 'hugeint'
             cfg['repro'] = False
             out.append(cfg)
     # focused on few optimizers: they are also the EARLIER task of histories observed through other optimizers (those that clip
